@@ -1155,6 +1155,56 @@ func TestC15(t *testing.T) {
 		}
 		s.St.Exhaust("output faults: size limits at structural offsets and every kind of unusable output x {encrypt, decrypt} x plaintext lengths {0, 100, 64K+1}", int64(n))
 	}, check)
+	// thorough tier: every byte offset at which the output can fail, for small
+	// results; every offset near the structural boundaries of a two-chunk one;
+	// to a size-limited file and to a pipe whose reader closes early
+	pbt.Each(s, "cli-output-faults", func(yield func(c15Case)) {
+		if !s.Thorough() {
+			return
+		}
+		n := 0
+		for _, op := range []string{"dec", "enc"} {
+			for _, armored := range []bool{false, true} {
+				for _, key := range []string{"x25519-r", "ed25519"} {
+					for _, l := range []int{0, 100, chunk + 1} {
+						total := l
+						if op == "enc" {
+							total = l + 200 + 100*boolInt(key == "ed25519")
+							if armored {
+								total = total*4/3 + 200
+							}
+						}
+						var limits []int
+						if l <= 100 {
+							for b := 0; b <= total+2; b++ {
+								limits = append(limits, b)
+							}
+						} else {
+							for _, center := range []int{0, 200, chunk, chunk + 16, chunk + 216, total} {
+								for b := center - 12; b <= center+12; b++ {
+									if b >= 0 {
+										limits = append(limits, b)
+									}
+								}
+							}
+						}
+						for _, b := range limits {
+							for _, out := range []string{"fsize", "pipe-close"} {
+								if out == "pipe-close" && (b%4 != 0 || armored) {
+									continue
+								}
+								if s.Mine(n) {
+									yield(c15Case{Op: op, Key: key, Armor: armored, PlainLen: l, Out: out, OutLimit: b, Damage: "none", Ident: "right", Umask: -1})
+								}
+								n++
+							}
+						}
+					}
+				}
+			}
+		}
+		s.St.Exhaust("output failing at every byte offset of small results and at every offset within 12 bytes of the structural boundaries of a two-chunk result x {encrypt, decrypt} x {binary, armored} x {X25519, ssh-ed25519}, size-limited file and early-closed pipe", int64(n))
+	}, check)
 	// same-file spellings: exhaustive
 	pbt.Each(s, "cli-same-file", func(yield func(c15Case)) {
 		n := 0
